@@ -287,6 +287,7 @@ fn next_bytes<'s>(
     utf8parser: &mut Utf8Parser,
 ) -> Option<&'s [u8]> {
     let offset = bytes.iter().copied().position(|b| {
+        abandon_truncated_utf8(state, utf8parser, b);
         if *state == State::Utf8 {
             true
         } else {
@@ -301,6 +302,7 @@ fn next_bytes<'s>(
     *bytes = next;
 
     let offset = bytes.iter().copied().position(|b| {
+        abandon_truncated_utf8(state, utf8parser, b);
         if *state == State::Utf8 {
             if utf8parser.add(b) {
                 *state = State::Ground;
@@ -325,6 +327,15 @@ fn next_bytes<'s>(
         None
     } else {
         Some(printable)
+    }
+}
+
+/// A character that was cut short does not swallow the byte that follows it
+#[inline]
+fn abandon_truncated_utf8(state: &mut State, utf8parser: &mut Utf8Parser, next: u8) {
+    if *state == State::Utf8 && !is_utf8_continuation(next) {
+        *utf8parser = Default::default();
+        *state = State::Ground;
     }
 }
 
